@@ -208,8 +208,10 @@ func forDirected5(g *vlib.G, quickStep, thoroughStep uint32, f func(key string, 
 	}
 }
 
-// plan5 is the realisation plan of the 5-node digraph sweeps: every graph of
-// the 2^20 in both tiers; two realisations each in quick, all twelve in thorough.
+// plan5 is the realisation plan of the 5-node digraph sweeps: two
+// realisations per graph in quick, all twelve in thorough. dir-flow5 covers
+// all 2^20 graphs in both tiers, dir-intervals5 a half and dir-topo5 a quarter
+// of them in quick and all in thorough.
 func plan5(g *vlib.G, mask uint32) []combo {
 	if g.Thorough() {
 		return allCombos
@@ -228,7 +230,7 @@ func genDirFlow5(g *vlib.G) {
 }
 
 func genDirIntervals5(g *vlib.G) {
-	forDirected5(g, 1, 1, func(key string, s gspec) {
+	forDirected5(g, 2, 1, func(key string, s gspec) {
 		plan := plan5(g, s.mask)
 		g.Case(key, func(t *vlib.T) { dirFlowCase(t, "dir-intervals5", key, s, 0, true, plan) })
 	})
@@ -238,10 +240,7 @@ func genDirIntervals5(g *vlib.G) {
 // to directed graphs on 5 nodes (quick: a fixed quarter, thorough: all).
 func genDirTopo5(g *vlib.G) {
 	forDirected5(g, 4, 1, func(key string, s gspec) {
-		plan := twoCombos(s.mask)
-		if g.Thorough() {
-			plan = oneMapCombos(s.mask)
-		}
+		plan := plan5(g, s.mask)
 		g.Case(key, func(t *vlib.T) { dirTopoCase(t, "dir-topo5", key, s, plan) })
 	})
 }
